@@ -1136,7 +1136,7 @@ class Timing(StateMonitor):
         stories, e = _call(lambda: ro.stories)
         if e is not None:
             return      # C15's business
-        if [s.id for s in stories] != view.story_ids:
+        if [s.id or '' for s in stories] != [i or '' for i in view.story_ids]:      # (a blank ID is None in the library, '' in the view)
             return
         data = [_story_timing(sv.elem) for sv in view.stories]
         durs = [d for d, _, _ in data]
